@@ -710,10 +710,11 @@ func genCases(o *lib.Opts) {
 		emit("duplicate-keys", vt, h, g.probes(h, 20))
 	}
 
-	// 7. large maps: 10^3, 10^4 (quick), 10^5 (thorough); shrink to small and grow again
+	// 7. large maps: 10^3, 10^4 (quick), 3·10^4 and 4·10^4 (thorough; the Lean driver evaluates the List.lookup spec per probe and per
+	// item, quadratic in the map size: 10^5 entries kept one op busy for more than an hour); shrink to small and grow again
 	bigs := []int{1000, 4096, 10000}
 	if o.Tier == "thorough" {
-		bigs = append(bigs, 30000, 100000)
+		bigs = append(bigs, 30000, 40000)
 	}
 	for bi, sz := range bigs {
 		vt := vts[bi%3]
